@@ -2828,10 +2828,15 @@ class WBEMConnection:  # pylint: disable=too-many-instance-attributes
                         arg_name, type(bool_param)))
         return bool_param
 
-    def _get_rslt_params(self, result, namespace):
+    def _get_rslt_params(self, result, namespace, object_type=None,
+                         with_path=False):
         """
         Common processing for pull results to separate end-of-sequence,
         enum-context, and entities in IRETURNVALUE.
+
+        If `object_type` is not None, the entities in IRETURNVALUE must be of
+        that type (CIMInstance or CIMInstanceName) and if `with_path` is True,
+        must have a path.
 
         Returns tuple of entities in IRETURNVALUE, end_of_sequence,
         and enumeration_context)
@@ -2841,7 +2846,7 @@ class WBEMConnection:  # pylint: disable=too-many-instance-attributes
         enumeration_context = None
         end_of_sequence_found = False  # flag True if found and valid value
         enumeration_context_found = False  # flag True if ec tuple found
-        for p in result:
+        for p in result or []:
             if p[0] == 'EndOfSequence':
                 if isinstance(p[2], str):
                     p2 = p[2].lower()
@@ -2861,6 +2866,19 @@ class WBEMConnection:  # pylint: disable=too-many-instance-attributes
 
             elif _is_element(p, 'IRETURNVALUE'):
                 rtn_objects = p[2]
+
+        for obj in rtn_objects if object_type else []:
+            if not isinstance(obj, object_type):
+                raise CIMXMLParseError(
+                    _format("Expecting {0} object in result list, got {1} "
+                            "object", object_type.__name__,
+                            obj.__class__.__name__),
+                    conn_id=self.conn_id)
+            if with_path and obj.path is None:
+                raise CIMXMLParseError(
+                    "Expecting CIMInstance object with instance path in "
+                    "result list, got instance without path",
+                    conn_id=self.conn_id)
 
         if not end_of_sequence_found and not enumeration_context_found:
             raise CIMXMLParseError(
@@ -7156,7 +7174,8 @@ class WBEMConnection:  # pylint: disable=too-many-instance-attributes
                 has_out_params=True)
 
             result_tuple = pull_inst_result_tuple(
-                *self._get_rslt_params(result, namespace))
+                *self._get_rslt_params(
+                    result, namespace, CIMInstance, with_path=True))
             return result_tuple
 
         except (CIMXMLParseError, XMLParseError) as exce:
@@ -7387,7 +7406,8 @@ class WBEMConnection:  # pylint: disable=too-many-instance-attributes
                 has_out_params=True)
 
             result_tuple = pull_path_result_tuple(
-                *self._get_rslt_params(result, namespace))
+                *self._get_rslt_params(
+                    result, namespace, CIMInstanceName))
             return result_tuple
 
         except (CIMXMLParseError, XMLParseError) as exce:
@@ -7670,7 +7690,8 @@ class WBEMConnection:  # pylint: disable=too-many-instance-attributes
                 has_out_params=True)
 
             result_tuple = pull_inst_result_tuple(
-                *self._get_rslt_params(result, namespace))
+                *self._get_rslt_params(
+                    result, namespace, CIMInstance, with_path=True))
             return result_tuple
 
         except (CIMXMLParseError, XMLParseError) as exce:
@@ -7923,7 +7944,8 @@ class WBEMConnection:  # pylint: disable=too-many-instance-attributes
                 has_out_params=True)
 
             result_tuple = pull_path_result_tuple(
-                *self._get_rslt_params(result, namespace))
+                *self._get_rslt_params(
+                    result, namespace, CIMInstanceName))
             return result_tuple
 
         except (CIMXMLParseError, XMLParseError) as exce:
@@ -8186,7 +8208,8 @@ class WBEMConnection:  # pylint: disable=too-many-instance-attributes
                 has_out_params=True)
 
             result_tuple = pull_inst_result_tuple(
-                *self._get_rslt_params(result, namespace))
+                *self._get_rslt_params(
+                    result, namespace, CIMInstance, with_path=True))
             return result_tuple
 
         except (CIMXMLParseError, XMLParseError) as exce:
@@ -8414,7 +8437,8 @@ class WBEMConnection:  # pylint: disable=too-many-instance-attributes
                 has_out_params=True)
 
             result_tuple = pull_path_result_tuple(
-                *self._get_rslt_params(result, namespace))
+                *self._get_rslt_params(
+                    result, namespace, CIMInstanceName))
             return result_tuple
 
         except (CIMXMLParseError, XMLParseError) as exce:
@@ -8643,7 +8667,8 @@ class WBEMConnection:  # pylint: disable=too-many-instance-attributes
                 MaxObjectCount=MaxObjectCount,
                 has_out_params=True)
 
-            insts, eos, enum_ctxt = self._get_rslt_params(result, namespace)
+            insts, eos, enum_ctxt = self._get_rslt_params(
+                result, namespace, CIMInstance)
 
             query_result_class = _GetQueryRsltClass(result) if \
                 ReturnQueryResultClass else None
@@ -8798,7 +8823,8 @@ class WBEMConnection:  # pylint: disable=too-many-instance-attributes
                 has_out_params=True)
 
             result_tuple = pull_inst_result_tuple(
-                *self._get_rslt_params(result, namespace))
+                *self._get_rslt_params(
+                    result, namespace, CIMInstance, with_path=True))
             return result_tuple
 
         except (CIMXMLParseError, XMLParseError) as exce:
@@ -8943,7 +8969,8 @@ class WBEMConnection:  # pylint: disable=too-many-instance-attributes
                 has_out_params=True)
 
             result_tuple = pull_path_result_tuple(
-                *self._get_rslt_params(result, namespace))
+                *self._get_rslt_params(
+                    result, namespace, CIMInstanceName))
             return result_tuple
 
         except (CIMXMLParseError, XMLParseError) as exce:
@@ -9082,7 +9109,8 @@ class WBEMConnection:  # pylint: disable=too-many-instance-attributes
                 has_out_params=True)
 
             result_tuple = pull_inst_result_tuple(
-                *self._get_rslt_params(result, namespace))
+                *self._get_rslt_params(
+                    result, namespace, CIMInstance))
             return result_tuple
 
         except (CIMXMLParseError, XMLParseError) as exce:
